@@ -1,7 +1,7 @@
 (* C04 - no inbound bytes can panic the decoders.  `Panic` is the model's outcome for every Rust
    expression that can panic (unwrap, unreachable!, Bytes::advance past the end, slice index,
    arithmetic overflow with overflow checks on). *)
-From Poster Require Import Model.Rx Model.Framing Proofs.VarintP Proofs.RxP Proofs.FramingP.
+From Poster Require Import Model.Sim Proofs.VarintP Proofs.RxP Proofs.FramingP Proofs.FramingMainP Proofs.SimInvP.
 
 (* every non-empty byte string (the framing layer never hands over an empty one): the packet
    decoder returns a packet or an error *)
@@ -30,3 +30,38 @@ Theorem C04_framing_total : forall (fuel : nat) (x : rx) (rd : reader),
   fst (fst (fpoll fuel x rd)) <> FPanic.
 Proof. exact fpoll_no_panic. Qed.
 Print Assumptions C04_framing_total.
+
+(* the whole client, every history: for every sequence of script events - any bytes delivered in
+   any chunking in any phase (connecting, authorising, running), end-of-stream and read errors,
+   write faults at any offset, operations started / polled / dropped in any order, context and
+   handles dropped, reconnects - no event ever reports a panic of connect()/authorize() or of run(),
+   and the framing component stays well formed (so the model's own failure values - empty frame,
+   fuel exhausted - are unreachable).  The only hypothesis: CONNECT/AUTH options within MQTT's
+   packet size limit (the encoder's unwrap on a length above 268435455 is outside the property). *)
+Theorem C04_client_total : forall evs : list event, Forall ev_ok evs ->
+  forall j o, In (j, o) (run_script evs) -> o <> ORun RunPanic /\ o <> OConn ConnPanic.
+Proof. exact run_script_no_panic. Qed.
+Print Assumptions C04_client_total.
+
+(* one event from any state whose framing component is well formed *)
+Theorem C04_step : forall (s : sys) (e : event), FInv s -> ev_ok e ->
+  FInv (fst (step s e)) /\ no_panic_obs (snd (step s e)).
+Proof. exact step_good. Qed.
+Print Assumptions C04_step.
+
+(* a framing poll with the run loop's fuel, from a well-formed state: never Panic, never out of fuel,
+   and what it hands to the decoder is never empty *)
+Theorem C04_framing_good : forall s : sys, FInv s ->
+  match fpoll (poll_fuel (rd s)) (fr s) (rd s) with
+  | (FItem bs, f, r) => bs <> [] /\ (exists W, Inv f W) /\ nonempty_segs r
+  | (FPending, f, r) | (FEnd, f, r) => (exists W, Inv f W) /\ nonempty_segs r
+  | _ => False
+  end.
+Proof. exact fpoll_good. Qed.
+Print Assumptions C04_framing_good.
+
+Example C04_nonvacuous :
+  Forall ev_ok [EConnect (Build_connect_opts [99] 0 None None None None None None None None [] 0 false false
+                            None None None None None None [] None None None None);
+                EDeliver [32; 3; 0; 0; 0]; ERun; EDeliver [64; 1; 5]; EDeliver [240; 0]; EEof].
+Proof. repeat constructor; vm_compute; discriminate. Qed.
